@@ -49,7 +49,9 @@ RULE = ("generated directories: 1-3 species present in a start-resolution system
         "(first in sorted full-path order) and S demands determinism and membership only; near-miss distractor topologies "
         "(another molecule with the residue name(s) and atoms per residue of a real species but one different atom name, sorting "
         "before or after the genuine start topology; in the ambiguous stream also an alias with identical atom names); explicit "
-        "species whose files are listed again under another spelling (./x, relative) and/or as copies. "
+        "species whose files are listed again under another spelling (./x, relative) and/or as copies; --exclude lists of 2-3 "
+        "names (adjacent / non-adjacent in discovery order = sorted start topology, all species, an explicit species among "
+        "them, both orders); explicit triples whose end topology declares another molecule name than the start topology. "
         "Every permutation of the candidate list when it has <= 5 (quick) / <= 6 (thorough) files, sampled otherwise; "
         "hash seeds in subprocesses.  A case is non-trivial when its (directory descriptor, order) is distinct and the "
         "directory contains at least one discoverable species.")
@@ -1272,7 +1274,33 @@ def corpus_descs():
           "auto": ["M1_AA.gro", "M1_AA.itp", "M1_CG.alt.itp", "M1_CG.itp", "MOLA_AA.gro", "MOLA_AA.itp", "MOLA_CG.itp",
                    "system.gro"],
           "known": [], "exclude": None, "geom_seed": 6, "profile": "corpus-nearmiss"}
-    return [d11, f1, f3, sub, resp, nm]
+    # three complete species, --exclude naming two that are consecutive in discovery order / all of them (seeded C20-5)
+    m2 = {"name": "M2", "cg": [["M2", ["P"]]], "aa": [["M2", ["P", "F1", "F2", "F3"]]], "same_sig": False}
+    exc = {"species": [mola, m1, m2], "in_system": ["MOLA", "M1", "M2"], "blocks": [["M1", 2], ["MOLA", 2], ["M2", 2]],
+           "files": [top("MOLA_CG.itp", "MOLA", "cg"), top("MOLA_AA.itp", "MOLA", "aa"), coor("MOLA_AA.gro", "MOLA"),
+                     top("M1_CG.itp", "M1", "cg"), top("M1_AA.itp", "M1", "aa"), coor("M1_AA.gro", "M1"),
+                     top("M2_CG.itp", "M2", "cg"), top("M2_AA.itp", "M2", "aa"), coor("M2_AA.gro", "M2"),
+                     {"name": "notes.txt", "kind": "raw", "text": "x\n"}, {"name": "system.gro", "kind": "ref"}],
+           "ref": "system.gro",
+           "auto": ["MOLA_CG.itp", "MOLA_AA.itp", "MOLA_AA.gro", "M1_CG.itp", "M1_AA.itp", "M1_AA.gro", "M2_CG.itp",
+                    "M2_AA.itp", "M2_AA.gro", "notes.txt", "system.gro"],
+           "known": [], "exclude": None, "geom_seed": 7, "profile": "corpus-exclude-adjacent",
+           "main_cases": [["M1", "M2"], ["M2", "MOLA"], ["MOLA", "M2"], ["M1", "M2", "MOLA"], ["M1"], ["M1", "MOLA"]]}
+    # explicit triple whose end topology declares another molecule name than its start topology (seeded C20-6)
+    ren = {"name": "RENMOLA", "cg": mola["aa"], "aa": mola["aa"], "same_sig": True}
+    rend = {"species": [mola, m1, ren], "in_system": ["MOLA", "M1"], "blocks": [["M1", 2], ["MOLA", 2]],
+            "files": [top("MOLA_CG.itp", "MOLA", "cg"), top("MOLA_AA.itp", "MOLA", "aa"), coor("MOLA_AA.gro", "MOLA"),
+                      top("MOLA_AA_renamed.itp", "RENMOLA", "aa"),
+                      top("M1_CG.itp", "M1", "cg"), top("M1_AA.itp", "M1", "aa"), coor("M1_AA.gro", "M1"),
+                      {"name": "system.gro", "kind": "ref"}],
+            "ref": "system.gro", "auto": ["M1_CG.itp", "M1_AA.itp", "M1_AA.gro", "system.gro"],
+            "known": [], "exclude": None, "geom_seed": 8, "profile": "corpus-renamed-end",
+            "real_cases": [{"mol": [["M1_CG.itp", "M1_AA.gro", "M1_AA.itp"], ["MOLA_CG.itp", "MOLA_AA.gro", "MOLA_AA_renamed.itp"]],
+                            "auto": None, "scale": 0.7, "out_mode": "abs"},
+                           {"mol": [["MOLA_CG.itp", "MOLA_AA.gro", "MOLA_AA_renamed.itp"]],
+                            "auto": ["M1_CG.itp", "M1_AA.itp", "M1_AA.gro", "system.gro"], "scale": None, "out_mode": "default"}],
+            "triples": {"MOLA": ["MOLA_CG.itp", "MOLA_AA.gro", "MOLA_AA.itp"], "M1": ["M1_CG.itp", "M1_AA.gro", "M1_AA.itp"]}}
+    return [d11, f1, f3, sub, resp, nm, exc, rend]
 
 
 def hash_jobs(items):
@@ -1294,6 +1322,14 @@ def corpus(ctx):
     for j, (desc, d) in enumerate(items):
         discovery_case(ctx, ctx._c20, desc, d, rs, hash_obs=[(s, r[j]) for s, r in sorted(hs.items())], tag="corpus")
         S["corpus"] += 1
+        for excl in desc.get("main_cases", []):
+            main_record_fixed(ctx, ctx._c20, desc, d, True, excl, None, None)
+            S["corpus"] += 1
+        for i, rc in enumerate(desc.get("real_cases", [])):
+            main_real_case(ctx, ctx._c20, d, desc["ref"], [list(t) for t in rc["mol"]], rc["auto"], None, rc["out_mode"],
+                           rc["scale"], ["abs", "rel"][i % 2], 20, 5, {"kind": "main_real", "desc": desc},
+                           {n: tuple(t) for n, t in desc["triples"].items()})
+            S["corpus"] += 1
 
 
 def correspondence(ctx):
